@@ -34,6 +34,7 @@ type runOpts struct {
 	allowErrors func(p *progenum.Prog) bool
 	workers     int
 	keepPkg     bool // do not release the package after handle (handler releases)
+	noVisit     bool // only load; the handler runs the checkers itself
 }
 
 type runStats struct {
@@ -142,6 +143,13 @@ func runCorpus(gen func(emit func(progenum.Prog)), opts runOpts, handle func(*ca
 				if curFile != "" {
 					data, _ := json.Marshal(progReplay(&p, ""))
 					os.WriteFile(curFile, data, 0o644)
+				}
+				if opts.noVisit {
+					atomic.AddInt64(&st.ran, 1)
+					st.fam(p.Fam, true)
+					handle(&caseResult{prog: &p, pkg: pk, set: set})
+					pk.Release()
+					continue
 				}
 				diags, crashes, hang := set.VisitAllWatchdog(pk)
 				atomic.AddInt64(&st.ran, 1)
